@@ -9,6 +9,10 @@ from . import core
 from .num import Sym, Ite, lift, liftable, DomainError, symint, _num, _blift
 
 
+def _symscalar(x):
+    return isinstance(x, Sym) or type(x).__name__ == "Q"
+
+
 def has_sym(x):
     if isinstance(x, Sym):
         return True
@@ -55,6 +59,10 @@ def _fix_key(key):
 class SymArray(_np.ndarray):
     """ndarray subclass whose indexing accepts symbolic masks / indices (concretising forks)."""
 
+    # `symdt` models the *declared* dtype of an object array that stands for an integer array
+    # ("i"): values stored into it are truncated like NumPy does for integer arrays.
+    symdt = None
+
     def __array_finalize__(self, obj):
         pass
 
@@ -69,6 +77,13 @@ class SymArray(_np.ndarray):
         return super().__getitem__(_fix_key(key))
 
     def __setitem__(self, key, val):
+        if self.symdt == "i" and self.dtype == object:
+            if isinstance(val, _np.ndarray):
+                val = _elementwise(symint, val) if val.size else val
+            elif isinstance(val, (list, tuple)):
+                val = [symint(v) for v in val]
+            else:
+                val = symint(val)
         super().__setitem__(_fix_key(key), val)
 
     def astype(self, dtype, *a, **k):
@@ -157,8 +172,51 @@ def _where(cond, *xy):
 
 def _isnan(x):
     if has_sym(x):
-        return _elementwise(lambda e: False if isinstance(e, Sym) else bool(_np.isnan(e)), x)
+        a = _objarr(x)
+        out = _np.empty(a.shape, dtype=bool)
+        o = out.reshape(-1)
+        for i, e in enumerate(a.reshape(-1)):
+            o[i] = False if _symscalar(e) else bool(_np.isnan(e))
+        return out if out.ndim else bool(out)
     return _np.isnan(x)
+
+
+def _is_nan_el(e):
+    return (not _symscalar(e)) and isinstance(e, (float, _np.floating)) and e != e
+
+
+def _nan_reduce(a, axis, f):
+    """apply f(list of non-NaN elements) along `axis` of an object array."""
+    a = _objarr(a)
+    if axis is None:
+        return f([e for e in a.reshape(-1) if not _is_nan_el(e)])
+    a = _np.moveaxis(a, axis, 0)
+    out = _np.empty(a.shape[1:], dtype=object)
+    for idx in _np.ndindex(*a.shape[1:]):
+        col = [a[(k,) + idx] for k in range(a.shape[0])]
+        out[idx] = f([e for e in col if not _is_nan_el(e)])
+    if out.ndim == 0:
+        return out[()]
+    return out.view(SymArray)
+
+
+def _mean_list(v):
+    if not v:
+        return float("nan")
+    s = v[0]
+    for e in v[1:]:
+        s = s + e
+    return s / len(v)
+
+
+def _std_list(v):
+    if not v:
+        return float("nan")
+    if len(v) == 1:
+        return 0.0
+    m = _mean_list(v)
+    var = _mean_list([(e - m) * (e - m) for e in v])
+    return var.sqrt() if _symscalar(var) else float(var) ** 0.5
 
 
 def _isfinite(x):
@@ -219,8 +277,22 @@ def _full(shape, fill_value, dtype=None, **k):
 
 def _zeros_like(a, dtype=None, **k):
     if isinstance(a, _np.ndarray) and a.dtype == object and dtype is None:
+        if getattr(a, "symdt", None) == "i":
+            out = _mkobj(a.shape, 0)
+            out.symdt = "i"
+            return out
         return _mkobj(a.shape, 0.0)
     return _np.zeros_like(a, dtype=dtype, **k)
+
+
+def _like(fill):
+    def f(a, dtype=None, **k):
+        if isinstance(a, _np.ndarray) and a.dtype == object and dtype is None:
+            out = _mkobj(a.shape, fill if getattr(a, "symdt", None) != "i" else int(fill))
+            out.symdt = getattr(a, "symdt", None)
+            return out
+        return getattr(_np, "ones_like" if fill else "empty_like")(a, dtype=dtype, **k)
+    return f
 
 
 def _arange(*args, **k):
@@ -263,9 +335,16 @@ def _sqrt(x):
 
 def _nanmean(a, axis=None, **k):
     if has_sym(a):
-        a = _objarr(a)
-        return wrap(_np.mean(a, axis=axis, **k))
+        return _nan_reduce(a, axis, _mean_list)
     return _np.nanmean(a, axis=axis, **k)
+
+
+def _nanstd(a, axis=None, **k):
+    if has_sym(a):
+        if k.get("ddof"):
+            raise NotImplementedError("ddof")
+        return _nan_reduce(a, axis, _std_list)
+    return _np.nanstd(a, axis=axis, **k)
 
 
 def _count_nonzero(a, axis=None, **k):
@@ -323,10 +402,10 @@ def _asarray(obj, *a, **k):
 
 OVERRIDES = {
     "where": _where, "isnan": _isnan, "isfinite": _isfinite, "clip": _clip,
-    "zeros": _zeros, "ones": _ones, "empty": _empty, "full": _full, "zeros_like": _zeros_like,
+    "zeros": _zeros, "ones": _ones, "empty": _empty, "full": _full, "zeros_like": _zeros_like, "ones_like": _like(1.0), "empty_like": _like(0.0),
     "arange": _arange, "trunc": _trunc, "floor": _floor, "nanmean": _nanmean,
     "count_nonzero": _count_nonzero, "allclose": _allclose, "isscalar": _isscalar,
-    "array": _array, "asarray": _asarray, "asanyarray": _asarray, "sqrt": _sqrt,
+    "nanstd": _nanstd, "array": _array, "asarray": _asarray, "asanyarray": _asarray, "sqrt": _sqrt,
     "abs": _abs, "absolute": _abs,
 }
 
@@ -364,10 +443,6 @@ _BINOPS = {"add": _op.add, "subtract": _op.sub, "multiply": _op.mul, "divide": _
            "true_divide": _op.truediv, "power": _op.pow, "floor_divide": _op.floordiv,
            "less": _op.lt, "less_equal": _op.le, "greater": _op.gt, "greater_equal": _op.ge,
            "equal": _op.eq, "not_equal": _op.ne, "mod": _op.mod, "remainder": _op.mod}
-
-
-def _symscalar(x):
-    return isinstance(x, Sym) or type(x).__name__ == "Q"
 
 
 class _UfuncWrap:
